@@ -298,7 +298,10 @@ uper_sot_suck(const asn_codec_ctx_t *ctx, const asn_TYPE_descriptor_t *td,
 	(void)constraints;
 	(void)sptr;
 
+	/* The encoding is a whole number of octets: after the 24-bit steps
+	 * up to two of them are left, and they have to be consumed as well. */
 	while(per_get_few_bits(pd, 24) >= 0);
+	while(per_get_few_bits(pd, 8) >= 0);
 
 	rv.code = RC_OK;
 	rv.consumed = pd->moved;
